@@ -11,6 +11,7 @@ translation with the source location):
   ``int(_, 16)`` on hex digits is the model's ``hexval``, validated by the correspondence run);
 * ``maxChunkSizeLineLength``, ``_chunkExtChars`` (module constants of http.py);
 * ``_ChunkedTransferDecoder.__init__``: the constant assigned to ``_maxTrailerHeadersSize``;
+* the eight methods of ``_ChunkedTransferDecoder`` (hand-modelled): pinned by AST hash (translate/c22_pins.json);
 * ``toChunk``: shape only (``(networkString(f"{len(data):x}"), b"\\r\\n", data, b"\\r\\n")``).
 """
 from __future__ import annotations
@@ -65,7 +66,51 @@ def _int_const(n: ast.AST) -> int:
     fail(n, "not an integer constant")
 
 
+# The decoder's methods are modelled by hand (coq/C22/Model.v: [step], [drain], [feed], [run]); they are outside the
+# translatable subset (bytearray slicing, find, in-place deletion).  To fail closed on ANY edit of them, their
+# docstring-free ASTs are pinned by hash: a changed method stops the translation ("tie broken"), after which the check
+# searches for a failing input.  After a deliberate, re-validated change of /repo refresh the pins with
+#     PYTHONPATH=/verif python3 -m translate.c22 --pin /repo
+PINNED_METHODS = ["__init__", "_dataReceived_CHUNK_LENGTH", "_dataReceived_CRLF", "_dataReceived_TRAILER",
+                  "_dataReceived_BODY", "_dataReceived_FINISHED", "dataReceived", "noMoreData"]
+PINS_FILE = os.path.join(os.path.dirname(os.path.abspath(__file__)), "c22_pins.json")
+
+
+def _method_hash(f: ast.FunctionDef) -> str:
+    import copy
+    import hashlib
+    g = copy.deepcopy(f)
+    g.body = strip_doc(g.body) or [ast.Pass()]
+    g.decorator_list, g.returns = [], None
+    for a in g.args.args + g.args.kwonlyargs:
+        a.annotation = None
+    return hashlib.sha256(ast.dump(g, annotate_fields=True, include_attributes=False).encode()).hexdigest()[:20]
+
+
+def decoder_hashes(repo: str) -> dict:
+    http = load_module(os.path.join(repo, "src/twisted/web/http.py"))
+    dec = find_class(http, "_ChunkedTransferDecoder")
+    out = {}
+    for name in PINNED_METHODS:
+        out[name] = _method_hash(find_def(dec.body, name))
+    extra = [n.name for n in dec.body if isinstance(n, ast.FunctionDef) and n.name not in PINNED_METHODS]
+    if extra:
+        raise Untranslatable(f"_ChunkedTransferDecoder has methods the model does not know: {extra}")
+    return out
+
+
+def check_pins(repo: str) -> None:
+    import json
+    pins = json.load(open(PINS_FILE))
+    got = decoder_hashes(repo)
+    bad = [n for n in PINNED_METHODS if pins.get(n) != got[n]]
+    if bad:
+        raise Untranslatable("_ChunkedTransferDecoder." + ", ".join(bad) + " differ(s) from the source the hand-written "
+                             "model coq/C22/Model.v was validated against (translate/c22_pins.json)")
+
+
 def generate(repo: str) -> str:
+    check_pins(repo)
     abnf = load_module(os.path.join(repo, "src/twisted/web/_abnf.py"))
     http = load_module(os.path.join(repo, "src/twisted/web/http.py"))
     token = _membership_fn(abnf, "_istoken")
@@ -126,5 +171,11 @@ def regen(repo: str, coq_dir: str):
 
 
 if __name__ == "__main__":
+    import json
     import sys
-    print(generate(sys.argv[1] if len(sys.argv) > 1 else "/repo"))
+    if len(sys.argv) > 1 and sys.argv[1] == "--pin":
+        repo = sys.argv[2] if len(sys.argv) > 2 else "/repo"
+        json.dump(decoder_hashes(repo), open(PINS_FILE, "w"), indent=1)
+        print("pinned", PINS_FILE)
+    else:
+        print(generate(sys.argv[1] if len(sys.argv) > 1 else "/repo"))
